@@ -59,6 +59,13 @@ CLAIMED = {
             "rank lists, non-contiguous and lazily conjugated core views, requires_grad cores), all four dtypes.",
             "Trusted: torch.equal, storage pointers, the checker's dense contraction. CPU only.",
             "DESIGN.md 4/C19"),
+    "C10": ("property-based testing (Hypothesis): generated ordered factorisations / permutations / QTT shapes on (scrambled, complex) sources vs. dense reshape/permute with eps-scaled bound",
+            "Generated search over every ordered factorisation/merge of the element count with inserted/removed singleton "
+            "modes, all permutations up to order 6, QTT shapes and round trips, on real/complex, optionally gauge-scrambled "
+            "sources; oracle = dense reshape/permute, exact requested mode sizes, error <= 4 eps ||x|| + roundoff term.",
+            "Trusted: torch.reshape/permute on the checker's dense contraction; tensor to_qtt is bounded with the "
+            "prod||C_k||_F-scaled eps term (cores are truncated in isolation).",
+            "DESIGN.md 4/C10"),
     "C20": ("property-based testing (Hypothesis): generated layer configurations and batched inputs vs. dense affine map, autograd and finite-difference gradients",
             "Generated search over size_in/size_out/rank lists/dtype/initialiser/batch shape with the dense affine map "
             "built from the layer's own cores as oracle for the forward value, parameter registration, and gradients "
